@@ -66,6 +66,24 @@ class AtomicLock:
         pass
 
 
+_LAST_RELEASE = {}
+
+
+class FineLock(coop.Lock):
+    """TransferState/TransferMonitor lock in the fine-grained mode: the
+    manager process serves concurrent monitor calls in different threads, so
+    calls interleave at the lock boundaries.  The release is the call's
+    linearization point; its step is remembered so that the call's event
+    (emitted at return, with the value the caller really got) is ordered
+    there."""
+
+    def release(self):
+        s = coop.sched()
+        me = s.me()
+        _LAST_RELEASE[me.name if me else None] = s.step
+        super().release()
+
+
 class AtomicEvent(coop.Event):
     """set() inside a monitor call must not yield: the call is one hop."""
 
@@ -76,6 +94,10 @@ class AtomicEvent(coop.Event):
 class _Threading:
     Lock = AtomicLock
     Event = AtomicEvent
+
+    def __init__(self, fine=False):
+        if fine:
+            self.Lock = FineLock
 
     def __getattr__(self, n):
         import threading
@@ -109,12 +131,19 @@ class MonitorProxy:
 
         def call(*a, **kw):
             s.point('monitor')
+            me = s.me()
+            key = me.name if me else None
+            _LAST_RELEASE.pop(key, None)
             try:
                 r = fn(*a, **kw)
             except BaseException as e:
                 s.emit('Mon', m=name, a=_margs(a), ret='raise:' + _exck(e))
                 raise
-            s.emit('Mon', m=name, a=_margs(a), ret=_mret(r))
+            lin = _LAST_RELEASE.pop(key, None)
+            if lin is None:
+                s.emit('Mon', m=name, a=_margs(a), ret=_mret(r))
+            else:
+                s.emit('Mon', m=name, a=_margs(a), ret=_mret(r), lin=lin)
             s.point('monitor-ret')
             return r
         return call
@@ -355,7 +384,7 @@ def run(sc, chooser, max_steps=8000):
 
     extra = [
         (P, 'multiprocessing', _MP()),
-        (P, 'threading', _Threading()),
+        (P, 'threading', _Threading(fine=bool(sc.get('fine_monitor')))),
         (P, 'TransferMonitorManager', FakeManager),
         (P, 'ignore_ctrl_c', contextlib.nullcontext),
         (P, 'OSUtils', OSU),
@@ -395,7 +424,9 @@ def normalize(res, sc, tid):
     sub_sized = [False]
     known = [d.get('known') for d in sc['downloads']]
     snaps = []
-    for e in res['events']:
+    # a monitor call that released a lock is ordered at that release
+    events = sorted(res['events'], key=lambda e: e.get('lin', e.get('t', 0)))
+    for e in events:
         k, th = e['e'], e.get('th') or ''
         if k == 'Mon':
             m, a, ret = e['m'], e['a'], e['ret']
